@@ -150,7 +150,7 @@ def run_job(job):
             model = dict(model, __salt__=salt)
             rp = replay(pid, hname, params, model, opts)
         # solver models tend to be degenerate (many zeros); a generic defect also shows on generic inputs: the replay decides
-        for salt in (0, 2):
+        for salt in (0, 2, 5, 6):
             if rp['failed'] or kind not in ('sat', 'unknown', 'ground-fail'):
                 break
             # structural inputs (e.g. the cut position of a file) are kept, the data become generic
